@@ -306,8 +306,13 @@ func (e *ListExpr) Check(ctx *CheckCtx) error {
 	if len(e.List) == 0 {
 		return NewSyntaxError(e.GetPos(), "Empty list")
 	}
-	for _, item := range e.List {
-		if err := item.Check(ctx); err != nil {
+	for i, item := range e.List {
+		if nexp, ok := item.(*NameExpr); ok {
+			if fexpr, have := ctx.GetNamedExpr(nexp.Data); have {
+				e.List[i] = &FieldReferenceExpr{Name: nexp, FieldExpr: fexpr}
+			}
+		}
+		if err := e.List[i].Check(ctx); err != nil {
 			return err
 		}
 	}
